@@ -1,14 +1,14 @@
 #!/bin/sh
-# round-6 scratch trees under /tmp/m6/<Cxx-n>: (re)creates / re-syncs the trees from /verif/seeded-incoming/<Cxx>/<n>/patch.diff (or $SRC), runs all checks
+# round-6 scratch trees under ${TD:-/tmp/m6}/<Cxx-n>: (re)creates / re-syncs the trees from /verif/seeded-incoming/<Cxx>/<n>/patch.diff (or $SRC), runs all checks
 # on one fact base and prints "<tree> own=<yes|no> fired=<checks> broken=<checks>".  TREES="C01-1 C02-3" restricts; ENG=<engine root> uses another engine snapshot
-SRC=${SRC:-/verif/seeded-incoming}; mkdir -p /tmp/m6
-for w in ${TREES:-$(ls -d $SRC/C*/[1234] | sed "s#$SRC/\(C..\)/\(.\)#\1-\2#")}; do c=${w%%-*}; n=${w##*-}; d=$SRC/$c/$n; t=/tmp/m6/$w
+SRC=${SRC:-/verif/seeded-incoming}; mkdir -p ${TD:-/tmp/m6}
+for w in ${TREES:-$(ls -d $SRC/C*/[1234] | sed "s#$SRC/\(C..\)/\(.\)#\1-\2#")}; do c=${w%%-*}; n=${w##*-}; d=$SRC/$c/$n; t=${TD:-/tmp/m6}/$w
   [ -f $d/patch.diff ] || continue
   [ -d $t ] || git -C /repo worktree add -q --detach $t HEAD
   git -C $t checkout -q --detach $(git -C /repo rev-parse HEAD) 2>/dev/null
   git -C $t checkout -q -- . && git -C $t apply $d/patch.diff || { echo "FAIL $w"; continue; }
-  COCLS_CACHE_KEEP=250 COCLS_REPO=$t COCLS_NO_EVIDENCE=1 COCLS_NO_SELFTEST=1 python3 ${ENG:-/verif}/engine/check.py --all --tier quick > /tmp/m6/$w.log 2>&1
-  fired=$(grep -E "^=== C.. rc=1" /tmp/m6/$w.log | cut -c5-7 | tr '\n' ' '); broken=$(grep -E "^=== C.. rc=2" /tmp/m6/$w.log | cut -c5-7 | tr '\n' ' ')
+  COCLS_CACHE_KEEP=250 COCLS_REPO=$t COCLS_NO_EVIDENCE=1 COCLS_NO_SELFTEST=1 python3 ${ENG:-/verif}/engine/check.py --all --tier quick > ${TD:-/tmp/m6}/$w.log 2>&1
+  fired=$(grep -E "^=== C.. rc=1" ${TD:-/tmp/m6}/$w.log | cut -c5-7 | tr '\n' ' '); broken=$(grep -E "^=== C.. rc=2" ${TD:-/tmp/m6}/$w.log | cut -c5-7 | tr '\n' ' ')
   case " $fired" in *" $c "*) own=yes;; *) own=no;; esac
   echo "$w own=$own fired=$fired broken=$broken"
 done
